@@ -104,8 +104,8 @@ def report_diff(ctx, it, cfg, diff, also=(), seen_keys=None):
         sp, sc, sd = prog, calls, diff
     detail = {
         "config": cfg.name, "difference": sd, "source": sp.vy(),
-        "calls": [{"function": sp.exts[c.fidx].abi_sig(), "args": [str(a) for a in c.args], "sender": c.sender,
-                   "value": c.value, "calldata": H.calldata(sp.exts[c.fidx], c).hex()} for c in sc],
+        "calls": [{"function": H.fun_of(sp, c).abi_sig(), "args": [str(a) for a in c.args], "sender": c.sender,
+                   "value": c.value, "calldata": H.calldata(H.fun_of(sp, c), c).hex()} for c in sc],
         "rule": "VyCore source semantics (coq/C01/VyCore.v): expected = model prediction, observed = EVM execution of "
                 "the compiled bytecode under this configuration",
         "shrink_s": round(time.time() - t0, 1),
@@ -281,7 +281,7 @@ def run(ctx):
     ctx.corr["generator"] = stats
     ctx.corr["configs"] = [c.name for c in cfgs]
     ctx.corr["evaluations"] = stats["calls_compared"] + n_tie
-    distinct = len({(i, H.calldata(it["prog"].exts[c.fidx], c)) for i, it in enumerate(items) for c in it["calls"]})
+    distinct = len({(i, H.calldata(H.fun_of(it["prog"], c), c)) for i, it in enumerate(items) for c in it["calls"]})
     ctx.corr["distinct_nontrivial"] = distinct * len(cfgs)
     ctx.corr["rule"] = ("evaluations = external calls executed on the EVM and compared with VyCore (status, return data, "
                         "ordered logs) summed over configurations, plus final raw storage per program/config; distinct = "
